@@ -85,6 +85,17 @@ def replay(case):
         from saml2_tophat.saml import NameID, NAMEID_FORMAT_TRANSIENT
         if scn.get('spKey') == 'unlabelled':
             idp = spc.idp_for(metadata=[env.sp_metadata(keys=(('kSpEnc1', None),))])
+        elif scn.get('spKey') in ('methods', 'extra_keyname'):
+            md = env.sp_metadata()
+            cut = md.index('</md:KeyDescriptor>', md.index('use="encryption"'))
+            if scn['spKey'] == 'methods':
+                ins = ('<md:EncryptionMethod Algorithm="http://www.w3.org/2009/xmlenc11#aes256-gcm"/>'
+                       '<md:EncryptionMethod Algorithm="http://www.w3.org/2001/04/xmlenc#rsa-oaep-mgf1p"/>')
+                md = md[:cut] + ins + md[cut:]
+            else:
+                end = cut + len('</md:KeyDescriptor>')
+                md = md[:end] + '<md:KeyDescriptor use="encryption"><ds:KeyInfo><ds:KeyName>backup-key</ds:KeyName></ds:KeyInfo></md:KeyDescriptor>' + md[end:]
+            idp = spc.idp_for(metadata=[md])
         else:
             idp = spc.idp_for()
         if scn.get('priorVerify') and scn.get('spKey') != 'unlabelled':
